@@ -51,10 +51,11 @@ package ice
 //@   ensures reports-selected: result == (old(a.getSelectedPair()) != nil)
 
 //@ func (*Agent).updateConnectionState
-//@   props C04 C06
+//@   props C04 C06 C09
 //@   site call EnqueueConnectionState#1 assert C04 notifies-exactly-the-new-state: arg1 == newState && a.connectionState == newState
 //@   site call EnqueueConnectionState#1 assert C04 only-on-change: old(a.connectionState) != newState
 //@   site call EnqueueConnectionState#1 assert C04 C06 released-before-failed: newState == ConnectionStateFailed ==> len(a.checklist) == 0 && len(a.pairsByID) == 0 && len(a.pendingBindingRequests) == 0
+//@   site call EnqueueConnectionState#1 assert C06 C09 no-candidate-survives-the-failure: newState == ConnectionStateFailed ==> forall k NetworkType :: !has(a.localCandidates, k) && !has(a.remoteCandidates, k)
 //@   ensures C04 same-state-is-silent: old(a.connectionState) == newState ==> unchangedExcept()
 //@   ensures C04 state-stored: a.connectionState == newState
 //@   ensures C04 C03 only-failed-releases: newState != ConnectionStateFailed ==> unchangedExcept("H_ice.Agent.connectionState", "H_ice.handlerNotifier.*", "E_ice.ConnectionState")
